@@ -211,10 +211,20 @@ class BatchLoader(LoaderBase):
     ) -> DaskArrayList:
         """Construct batch loading tasks."""
         _backend = backend or Backend()
-        return DaskArrayList.concat(
-            loader.construct_loading_tasks(output_shape=output_shape, backend=_backend)
-            for loader in self.loaders
-        )
+        # The i-th task must load the i-th molecule. Molecules of different tomograms
+        # may be interleaved (e.g. after sort or sample), so scatter the per-tomogram
+        # tasks back to the molecule order.
+        image_ids = self.molecules.features[IMAGE_ID_LABEL].to_numpy()
+        tasks: list[da.Array | None] = [None] * len(image_ids)
+        for loader in self.loaders:
+            image_id = loader.molecules.features[IMAGE_ID_LABEL][0]
+            indices = np.where(image_ids == image_id)[0]
+            arrays = loader.construct_loading_tasks(
+                output_shape=output_shape, backend=_backend
+            )
+            for i, arr in zip(indices, arrays):
+                tasks[i] = arr
+        return DaskArrayList(tasks)  # type: ignore
 
 
 class LoaderAccessor:
